@@ -84,6 +84,9 @@ def run(tier):
             scen.append({"mode": "measure", "what": what, "rates": [r], "src": "grid"})
         for r1, r2 in ((8, 20), (40, 10), (10, 8)) + (((20, 40), (20, 8)) if what == "echo" else ()):
             scen.append({"mode": "measure", "what": what, "rates": [r1, r2], "switch_ms": 1000, "src": "grid-change"})
+    # an echo in flight across the change: the impulse 200 ms before the switch, its echo (500 ms) due 300 ms after it
+    for r1, r2 in ((8, 20), (20, 8), (40, 10), (10, 40)):
+        scen.append({"mode": "measure", "what": "echo", "rates": [r1, r2], "switch_ms": 1000, "impulse_ms": 800, "src": "grid-echo-in-flight"})
     # a sound whose own sample rate is far above the device's (12, 24 and 9.6 source frames per output frame)
     for rr, sr in (([8], 96), ([8], 192), ([10], 96), ([8, 20], 192), ([20, 8], 96)):
         scen.append({"mode": "measure", "what": "sound", "rates": rr, "src_rate": sr, "switch_ms": 1000, "src": "grid-fast-source"})
